@@ -211,6 +211,13 @@ def tlc(module, cfg=None, env=None, workers=None, extra=(), timeout=900, cwd=SPE
     return res
 
 
+def unescape_csv_json_line(line):
+    line = line.strip()
+    if line.startswith('"') and line.endswith('"'):
+        line = line[1:-1].replace('\\"', '"').replace('\\\\', '\\')
+    return json.loads(line)
+
+
 def unescape_csv_json(path):
     """TLC CSVWrite of ToJson(...) yields lines like "{\"a\":1}" -> parse each to a dict."""
     out = []
@@ -308,28 +315,36 @@ class Ctx:
         consumed = max(0, r.depth - 1)
         return False, consumed, total
 
-    def validate_all(self, module, trace_path, key_of, cfg=None, env=None, max_rejections=25, group_start="Reset",
+    def validate_all(self, module, trace_path, key_of, cfg=None, env=None, max_rejections=8, group_start="Reset",
                      what_of=None, is_known_only=False):
         """Validate a trace made of executions, each starting with a `group_start` event.
         On rejection the offending execution is recorded as a violation (key from key_of(exec_lines, bad_line)),
         removed, and validation continues so that the rest of the trace is still checked.
         Returns number of executions accepted."""
         lines = [l for l in open(trace_path).read().splitlines() if l.strip()]
+        if lines:
+            try:
+                json.loads(lines[-1])
+            except ValueError:      # recorder died in the middle of a line
+                lines.pop()
+                open(trace_path, "w").write("\n".join(lines) + "\n")
+        if not lines:
+            return 0
         groups = []
         for l in lines:
             ev = json.loads(l)
-            if ev.get("e") == group_start or not groups:
+            if group_start == "__each__" or ev.get("e") == group_start or not groups:
                 groups.append([])
             groups[-1].append(l)
         n_exec = len(groups)
         rejected = 0
         cur = trace_path
         rounds = 0
-        while True:
+        while groups:
             ok, consumed, total = self.validate(module, cur, cfg=cfg, env=env)
             if ok:
                 break
-            # locate offending group
+            # locate the offending execution; everything before it was accepted
             idx = consumed  # 0-based index of first rejected line
             pos = 0
             gi = 0
@@ -339,20 +354,22 @@ class Ctx:
                 pos += len(g)
             g = groups[gi]
             bad = g[min(idx - pos, len(g) - 1)]
-            # confirm by validating the offending execution alone (re-run before reporting)
+            # re-run before reporting: the offending execution alone must be rejected again
             solo = os.path.join(self.work, "solo-%d.ndjson" % rounds)
             open(solo, "w").write("\n".join(g) + "\n")
             ok2, _, _ = self.validate(module, solo, cfg=cfg, env=env)
             if ok2:
                 raise EngineError("trace rejection at line %d of %s did not repeat in isolation" % (idx + 1, cur))
-            key = key_of([json.loads(x) for x in g], json.loads(bad))
-            what = what_of([json.loads(x) for x in g], json.loads(bad)) if what_of else "trace rejected by %s at event %s" % (module, bad[:300])
-            self.violation(key, what, {"trace_spec": module, "rejected_event": json.loads(bad), "execution": [json.loads(x) for x in g][:200]})
+            gl = [json.loads(x) for x in g]
+            key = key_of(gl, json.loads(bad))
+            what = what_of(gl, json.loads(bad)) if what_of else "trace rejected by %s at event %s" % (module, bad[:300])
+            self.violation(key, what, {"trace_spec": module, "rejected_event": json.loads(bad), "execution": gl[:200]})
             rejected += 1
-            del groups[gi]
+            groups = groups[gi + 1:]      # continue with the executions after the rejected one
             rounds += 1
-            if rounds >= max_rejections or not groups:
-                self.notes.append("stopped after %d rejected executions; remaining executions not all validated" % rounds)
+            if rounds >= max_rejections:
+                self.notes.append("stopped after %d rejected executions; %d executions not validated" % (rounds, len(groups)))
+                n_exec -= len(groups)
                 break
             cur = os.path.join(self.work, "rest-%d.ndjson" % rounds)
             open(cur, "w").write("\n".join(l for g2 in groups for l in g2) + "\n")
